@@ -1,4 +1,5 @@
 """C15 - comments are transparent; annotations stick to the next option (DESIGN 4/C15)."""
+from runner import Ob
 from props.common import run_with
 from props.parsecommon import parse_step_obs, F
 from props.lexcommon import lex_step_obs
@@ -15,6 +16,9 @@ def build_obs(tier, tables):
     obs += parse_step_obs(["CHK_C15", "CHK_C01"], "c15tok", states=range(0, 16), tok=COMMENT_TOK, tier=tier)
     # parser: pending annotation is attached by the assignment (state 2), any token
     obs += [o for o in parse_step_obs(["CHK_C15"], "c15ann", states=[0, 2, 3], tier=tier) if "f800" in o.key]
+    # print: an annotation is written as exactly one comment (so that a re-parse reads it back)
+    obs.append(Ob("c15-rt-annotation", "c05_rt.c", ["-DMODE=4"], unwind=12, unwindset=["v_fprintf.0:12", "v_fprintf.1:10", "put_ld.0:24", "put_ld.1:24", "main.0:8", "main.1:8", "main.2:40", "v_fputs.0:12", "strstr.0:8", "strchr.0:8"], checks="none", must_reach=("stepped",),
+                  params={"what": "annotation of 1-3 symbolic bytes printed by the real printer is exactly one comment of the language"}))
     # lexer: every rule that produces or accumulates comment text
     sc0 = [r for r in tables["reach"]["0"]]
     obs += lex_step_obs(tables, ["CHK_C15", "CHK_C03"], tier, "c15lex", windows=[4], checks="none", scs=(1,))
